@@ -501,7 +501,7 @@ CHECKS = {
             C('link', 'TestLinkReal', 'TraceLink', env={'VERIF_LINK_PATS': 'pubsub,xpubxsub'}),   # every transport; the subscriber is a SUB context; held slices
             RS('xpub'), RS('xsub'),
             T('MC_Sub', 'Sub_quick.cfg'),
-            T('MC_Sub', 'Sub_full.cfg', tiers=('thorough',) T('MC_SubLive', 'Sub_live.cfg', workers=8, tiers=('thorough',)),),
+            T('MC_Sub', 'Sub_full.cfg', tiers=('thorough',)), T('MC_SubLive', 'Sub_live.cfg', workers=8, tiers=('thorough',)),
             C('sub', 'TestSub', 'TraceSub', n={'quick': 120, 'thorough': 1500}),
             C('subscn', 'TestSub', 'TraceSub', file='sub', n={'quick': 150, 'thorough': 1500},
               scn=[('MC_SubScn', {'quick': ['SubScn_q5.cfg'], 'thorough': ['SubScn_q5.cfg', 'SubScn_z.cfg']})]),
